@@ -1,3 +1,4 @@
+import Varint.Bridge.RLEDec
 import Varint.Bridge.RLE
 import Varint.Bridge.Sizes
 import Varint.Lemmas.BP128
@@ -63,6 +64,25 @@ theorem c_rle_encode_roundtrip (xs : List Nat) (hx : U64s xs) (hn : xs.length < 
   refine ⟨_, _, _, _, _, _, Varint.Bridge.RLE.rleEncode_eq xs hx hn given fuel hf, ?_, ?_⟩
   · rw [Varint.Bridge.storesFrom_fst]
   · rw [Varint.Bridge.storesFrom_snd]; exact RLE.dec_enc xs hx (by omega) rest
+
+/-- **both directions on the machine translation**: the bytes `varintRLEEncode` stores, handed to `varintRLEDecode`
+    with the original count (whatever bytes follow them), make the decoder store exactly the original array at
+    values[0 … count-1] and return count. Encoder loop, decoder loops and the tagged reader/writer are all the
+    translated C; no hand-written model of the codec's control flow is involved in the statement. -/
+theorem c_rle_codec_roundtrip (xs : List Nat) (hx : U64s xs) (hn : xs.length < 2 ^ 60) (given : Bool)
+    (rest : List Nat) (hr : ∀ b ∈ rest, b < 256) (fuel : Nat) (hf : 2 * xs.length + 2 ≤ fuel) :
+    ∃ n m1 m2 m3 m4 stores,
+      Varint.Gen.C.rleEncode fuel (Varint.Bridge.Tagged.bufOf xs) xs.length given = some (n, m1, m2, m3, m4, stores) ∧
+      Varint.Gen.C.rleDecode fuel (Varint.Bridge.Tagged.bufOf (stores.map Prod.snd ++ rest)) xs.length =
+        some (xs.length, Varint.Bridge.storesFrom 0 xs) := by
+  refine ⟨_, _, _, _, _, _, Varint.Bridge.RLE.rleEncode_eq xs hx hn given fuel (by omega), ?_⟩
+  rw [Varint.Bridge.storesFrom_snd]
+  have hb : ∀ b ∈ RLE.enc xs ++ rest, b < 256 := by
+    intro b hbm
+    rcases List.mem_append.1 hbm with h1 | h1
+    · exact Varint.Bridge.RLEDec.enc_lt xs hx (by omega) b h1
+    · exact hr b h1
+  exact Varint.Bridge.RLEDec.rleDecode_eq _ hb xs.length (by omega) xs (RLE.dec_enc xs hx (by omega) rest) fuel hf
 
 /-! ## group varint (1–64 fields) -/
 
